@@ -99,8 +99,32 @@ def check_dot(src: str, scfg, report, arrow: str, bcmap=None):
     return len(dot.edges)
 
 
+PRIMERS = (((1,), (1, 2), ()), ((1, 2), (3,), (3,), ()), ((1, 2), (2, 3), (3,), ()))
+
+
+_PRIMED = [False]
+
+
+def prime():
+    """Render fixed small hierarchies first: a renderer must not carry state from one drawing to the next.
+    (Makes every instance a 2-step history that the replay repeats.)"""
+    from numba_scfg.rendering.rendering import SCFGRenderer
+    from ..families import make_scfg
+    if _PRIMED[0]:
+        return
+    _PRIMED[0] = True
+    for pg in PRIMERS:
+        s = make_scfg(pg)
+        try:
+            s.restructure()
+            SCFGRenderer(s).render_scfg().source
+        except Exception:  # noqa: BLE001
+            pass
+
+
 def check_graph(g, fam, acc: Acc, opts):
     from numba_scfg.rendering.rendering import SCFGRenderer
+    prime()
     for payload in opts.get("payloads", ("basic", "ast")):
         for stage, scfg, exc in staged(g, payload, include_input=True):
             if exc is not None:
@@ -134,6 +158,7 @@ def check_function(label, src, acc: Acc):
     ns = {}
     exec(compile(src, f"<{label}>", "exec"), ns)
     f = ns["f"]
+    prime()
     try:
         flow = ByteFlow.from_bytecode(f)
     except Exception:  # noqa: BLE001  (C09)
